@@ -8,6 +8,7 @@ Tie/judgement on the real binary (debug and release builds, CPU-time and address
 Inputs: structure-aware mutations of valid grammars, planted mistakes, multi-line constructs, escapes,
 non-ASCII and invalid UTF-8, token soups; x 4 shells x {file, stdout}."""
 from .. import build, canon, gen, impl, model, planted, report, sexp
+from . import maintie
 
 SHELLS = planted.SHELLS
 
@@ -236,6 +237,8 @@ def run(ctx, res):
     res.nontrivial = len(set(t for _, t in cs))
     res.traces_validated = res.evaluations
     end_to_end(ctx, res, cs)
+    # Model/Main.v (the whole command as a trace of effects) against the binary: command lines x inputs
+    maintie.tie(ctx, res, extra=[(k, t) for k, t in cs if not k.startswith('probe')])
     res.extra['inputs_per_kind'] = kinds
     res.extra['outcomes'] = outcomes
     res.assumptions = ['stack exhaustion on extreme nesting depth and exponential expansion of definitions are outside the generators '
